@@ -538,15 +538,19 @@ def run_complete(ctx, world):
     ctx.case(case, nontrivial=(sc["prev"] != "absent" or not good), classes=_classes(sc) + ["point:complete", f"state:{state}",
              f"status:{res.status}"], key=_key(sc) + "|complete")
     ph = _phase(sc)
-    if good:
+    if world.noop_expected():
+        # the stored validators are current: nothing is downloaded, whatever the body would have been
+        if res.status != "completed":
+            ctx.violation(f"{ph}:noop-sync-failed", case, f"sync with current ETag/Last-Modified did not complete: {res.exc}")
+            return None
+        ok, why = world.old_untouched()
+        if state != "old" or not ok:
+            ctx.violation(f"{ph}:noop-sync-changed-tree", case, f"stored ETag/Last-Modified is current, yet tree is '{state}' {why}")
+    elif good:
         if res.status != "completed":
             ctx.violation(f"{ph}:good-sync-failed", case, f"sync from a good tarball did not complete: {res.exc}")
             return None
-        if world.noop_expected():
-            ok, why = world.old_untouched()
-            if state != "old" or not ok:
-                ctx.violation(f"{ph}:noop-sync-changed-tree", case, f"stored ETag/Last-Modified is current, yet tree is '{state}' {why}")
-        elif state != "new":
+        if state != "new":
             ctx.violation(f"{ph}:good-sync-wrong-tree:{state}", case, f"after a completed sync the repository path holds '{state}'")
     else:
         if res.status == "completed":
@@ -598,8 +602,7 @@ def run_midtar(ctx, world):
     world.reset()
     res = crash.dry_run(world.sync_op(world.uri, sc["force"], shim=True), [world.live])
     if not (res.status == "died" and res.code == -9):
-        if any(signature(e) == "subprocess.Popen:tar" for e in res.events):
-            raise core.HarnessError(f"tar shim did not kill the syncer: {res.status} {res.exc}")
+        # tar was not spawned, or the extraction itself failed (the shim passes tar's failure through)
         ctx.count("midtar_not_reached")
         return
     state = world.state()
@@ -655,9 +658,9 @@ def warm_up(ctx, lb):
 
     import pkgcore.sync.tar  # noqa: F401
 
-    res = crash.dry_run(w.sync_op(w.uri, False), [w.live])
-    if res.status != "completed" or w.state() != "new":
-        raise core.HarnessError(f"warm-up sync failed: {res.status} {res.exc} state={w.state()}")
+    res = crash.dry_run(w.sync_op(w.uri, False), [w.live])  # outcome is not judged here, only that the harness works
+    if res.status == "died":
+        raise core.HarnessError(f"warm-up sync child died: {res.code}")
     lb.srv.blobs.pop("warm", None)
     shutil.rmtree(w.top, ignore_errors=True)
 
@@ -687,8 +690,7 @@ def replay(ctx, case):
         if pt == "complete" or pt is None:
             run_complete(ctx, world)
         elif pt == "midtar":
-            if sc["server"]["kind"] == "good" and any(signature(e) == "subprocess.Popen:tar" for e in events):
-                run_midtar(ctx, world)
+            run_midtar(ctx, world)
         else:
             world.reset()
             res = crash.dry_run(world.sync_op(world.uri, sc["force"]), [world.live])
